@@ -70,7 +70,32 @@ fn heap_of(h: &H) -> usize {
 
 const OPS: [&str; 9] = ["clone", "read", "drop", "get_mut", "try_unwrap", "make_mut", "unwrap_or_clone", "count", "convert"];
 
-fn worker(tid: u32, mut hs: Vec<H>, seed: u64, nops: usize, shared: usize, yields: bool, lender: Option<triomphe::ArcBorrow<'static, A>>, menu: &'static [&'static str]) {
+#[derive(Clone, Copy)]
+enum Lender {
+    Borrow(triomphe::ArcBorrow<'static, A>),
+    Offset(&'static OffsetArc<A>),
+}
+unsafe impl Send for Lender {}
+impl Lender {
+    fn take(&self, how: usize) -> H {
+        match self {
+            Lender::Borrow(b) => {
+                if how % 2 == 0 {
+                    H::Arc(b.clone_arc())
+                } else {
+                    H::Arc(b.with_arc(|a| a.clone()))
+                }
+            }
+            Lender::Offset(o) => match how % 3 {
+                0 => H::Off((*o).clone()),
+                1 => H::Arc(o.clone_arc()),
+                _ => H::Arc(o.with_arc(|a| a.clone())),
+            },
+        }
+    }
+}
+
+fn worker(tid: u32, mut hs: Vec<H>, seed: u64, nops: usize, shared: usize, yields: bool, lender: Option<Lender>, menu: &'static [&'static str]) {
     TID.with(|t| t.set(tid));
     sched_enter();
     let mut rng = Rng(seed.wrapping_mul(0x9E3779B97F4A7C15) ^ (tid as u64) << 32 | 1);
@@ -84,7 +109,7 @@ fn worker(tid: u32, mut hs: Vec<H>, seed: u64, nops: usize, shared: usize, yield
             // nothing of its own left: take a new handle from the borrow of the main thread's handle
             // (several threads may do this at once while the count is 1)
             mark(START, 0);
-            let n = if rng.below(2) == 0 { H::Arc(lender.clone_arc()) } else { H::Arc(lender.with_arc(|a| a.clone())) };
+            let n = lender.take(rng.below(6));
             mark(HINC, 0);
             hs.push(n);
             mark(END, 0);
@@ -292,11 +317,24 @@ pub fn run(seed: u64, nthreads: usize, nops: usize) -> Vec<Value> {
         per.push(v);
     }
     let total: usize = init.iter().sum::<usize>() + if with_lender { 1 } else { 0 };
-    let lender: Option<triomphe::ArcBorrow<'static, A>> = if with_lender { Some(unsafe { std::mem::transmute(root.borrow_arc()) }) } else { None };
-    let mut root = Some(root);
-    if !with_lender {
-        root = None; // released before the threads start: count = handles given to the threads
+    // main keeps its handle either as an Arc (lent through ArcBorrow) or as an OffsetArc (lent by reference)
+    let lend_offset = with_lender && (seed / 16) % 2 == 1;
+    let mut root_arc: Option<Arc<A>> = None;
+    let mut root_off: Option<Box<OffsetArc<A>>> = None;
+    if with_lender && lend_offset {
+        root_off = Some(Box::new(Arc::into_raw_offset(root)));
+    } else if with_lender {
+        root_arc = Some(root);
+    } else {
+        drop(root); // released before the threads start: count = handles given to the threads
     }
+    let lender: Option<Lender> = if let Some(a) = &root_arc {
+        Some(Lender::Borrow(unsafe { std::mem::transmute::<triomphe::ArcBorrow<'_, A>, triomphe::ArcBorrow<'static, A>>(a.borrow_arc()) }))
+    } else if let Some(o) = &root_off {
+        Some(Lender::Offset(unsafe { &*(&**o as *const OffsetArc<A>) }))
+    } else {
+        None
+    };
     ev::LOG.clear();
     SERIALISE.store(true, Ordering::SeqCst);
     let barrier = StdArc::new(Barrier::new(nthreads));
@@ -332,10 +370,11 @@ pub fn run(seed: u64, nthreads: usize, nops: usize) -> Vec<Value> {
     for w in 1..=nworkers {
         LOG.push(Ev::Mark { tid: w as u32, code: SYNC, a: 5 });
     }
-    if let Some(r) = root.take() {
+    if root_arc.is_some() || root_off.is_some() {
         mark(START, 2);
         mark(HDEC, 0);
-        drop(r);
+        drop(root_arc.take());
+        drop(root_off.take());
         mark(END, 0);
     }
     TID.with(|t| t.set(0));
@@ -361,6 +400,7 @@ pub fn run(seed: u64, nthreads: usize, nops: usize) -> Vec<Value> {
                     1 => json!({"t": tid, "e": "store", "d": operand as u64 as i64, "o": o}),
                     2 => json!({"t": tid, "e": "rmw", "d": 1, "o": o, "seen": seen as u64 as i64, "by": operand as u64 as i64}),
                     3 => json!({"t": tid, "e": "rmw", "d": 0, "o": o, "seen": seen as u64 as i64, "by": operand as u64 as i64}),
+                    4 | 5 => json!({"t": tid, "e": "cas", "new": operand as u64 as i64, "o": o, "seen": seen as u64 as i64}),
                     6 => json!({"t": tid, "e": "fence", "o": o}),
                     _ => json!({"t": tid, "e": "unsupported", "op": op}),
                 });
